@@ -4,7 +4,10 @@
 
 package table
 
-import "github.com/lni/dragonboat/v4"
+import (
+	"github.com/lni/dragonboat/v4"
+	"go.uber.org/zap"
+)
 
 // Verification hooks, compiled only with the verif build tag. They only export unexported seams.
 
@@ -23,4 +26,16 @@ func (m *Manager) VerifCleanup() error { return m.cleanup() }
 // VerifDiffTables exposes the pure catalogue-vs-running-shards difference.
 func VerifDiffTables(tables map[string]Table, raftInfo []dragonboat.ShardInfo) (map[uint64]Table, []uint64) {
 	return diffTables(tables, raftInfo)
+}
+
+// VerifNewManager builds a Manager over the given store without a NodeHost and without pebble
+// caches, for checks that only exercise catalogue and lease logic.
+func VerifNewManager(store store, nodeID uint64) *Manager {
+	return &Manager{
+		store:     store,
+		cfg:       Config{NodeID: nodeID},
+		closed:    make(chan struct{}),
+		readyChan: make(chan struct{}),
+		log:       zap.S().Named("manager"),
+	}
 }
